@@ -63,8 +63,9 @@ theorem emitter_count_eq_inputs {c : Dag} (h : DagInv c) :
   obtain ⟨P, g⟩ := h
   exact (g.inv.input_count .e).symm
 
-/-- hypotheses on an operation list: well-formed operations as graphiq constructs them (no user labels, at most two
-    quantum registers, wrappers wrap base gate classes) -/
+/-- hypotheses on an operation list: well-formed operations as graphiq constructs them (labels — including user labels such as
+    the solver's "Fixed" — outside the reserved names, i.e. class names and register-type descriptions; at most two quantum
+    registers; wrappers wrap base gate classes) -/
 def PlainSeq (seq : List Op) : Prop := ∀ op ∈ seq, OpWF op ∧ PlainOp' op
 
 /-- **`CircuitCnotCount` = number of CNOTs between two emitters in the operation list**, for every circuit built by
@@ -521,6 +522,17 @@ theorem hist_ok : C12.HistOKg (Dag.init 2 1 1) hist := by
     · exact hne rfl
   · intro e1 he1 e2 he2 hne
     simp at he1 he2; subst he1 he2; exact absurd rfl hne
+
+/-- the hypotheses admit user labels: the time-reversed solver's measurement, labelled "Fixed" (`gate.add_labels("Fixed")`), is a
+    graphiq-constructed operation in the sense of the theorems -/
+def mcrFixed : Op := ⟨.mcr, [⟨.e, 1⟩, ⟨.p, 0⟩], [0], ["two-qubit", "Fixed"], []⟩
+
+example : GraphiqOp mcrFixed :=
+  ⟨{ not_input := by decide, not_output := by decide, qregs_ne := by decide, qregs_nodup := by decide,
+     cregs_nodup := by decide, qregs_quantum := by decide,
+     wrapper_shape := by intro h; exact absurd h (by decide),
+     wrapper_key := by intro h; exact absurd h (by decide) },
+   ⟨⟨by decide, by decide⟩, by decide⟩, fun h => absurd h (by decide)⟩
 
 /-- the circuit reached -/
 def histCircuit : Dag := C12.run (Dag.init 2 1 1) hist
